@@ -209,3 +209,7 @@ func verifSettle() {
 		time.Sleep(time.Millisecond)
 	}
 }
+
+// verifSchedForkBound: number of "which goroutine next" decisions per path for
+// which every order is explored (engine only).
+func verifSchedForkBound(n int) {}
